@@ -13,6 +13,7 @@ The parser reads every view through its logical content (C08 ties the stream obj
 Programs (file types 0x70 / 0xf0) are handled by `Smpl.Model.AkaiProgram`.
 -/
 import Smpl.Model.Basic
+import Smpl.Model.ShortRead
 import Smpl.Model.Codec
 import Smpl.Model.Alloc
 import Smpl.Model.Names
@@ -237,15 +238,31 @@ def isProgramType (t : Nat) : Bool := t == 0x70 || t == 0xf0
 def window (c : Bytes) (off : Nat) (size : Int) : Bytes :=
   if size ≤ 0 then [] else (c.drop off).take size.toNat
 
-/-- realise one file entry (`FileEntry.file`): `none` = not listed (unknown type or parse error). -/
+/-- the sectors of a chain as they can be read: up to and including the first sector that is not
+wholly in the partition window (a read that touches the missing part raises `SectorReadError`). -/
+def segmentPrefix (p : Part) : List Nat → Bytes
+  | [] => []
+  | s :: rest =>
+    let sec := (p.content.drop (s * SECTOR)).take SECTOR
+    if sec.length < SECTOR then sec else sec ++ segmentPrefix p rest
+
+/-- the chain content in declared coordinates, with the bytes that are not in the file as holes. -/
+def segmentHoley (p : Part) (path : List Nat) : Smpl.ShortRead.Holey :=
+  Smpl.ShortRead.ofPieces SECTOR (path.map fun s => (p.content.drop (s * SECTOR)).take SECTOR)
+
+/-- realise one file entry (`FileEntry.file`): `none` = not listed (unknown type or parse error).
+The header is parsed from what can be read sequentially; the audio is read in blocks. -/
 def realizeFile (p : Part) (e : FileEntry) (programOk : Bytes → Bool) : Option FileNode :=
   match getPath p.links SAT_ENTRIES e.start with
   | .error _ => none
   | .ok path =>
-    let content := (segment p path).take e.size
+    let content := (segmentPrefix p path).take e.size
     if isSampleType e.ftype then
       (parseSampleHdr content).map fun h =>
-        ⟨e.name, e.ftype, .sample h (window content (SAMPLE_HEADER_BYTES + 2 * h.start) (2 * ((h.end_ : Int) - h.start)))⟩
+        let size : Int := 2 * ((h.end_ : Int) - h.start)
+        let data := if size ≤ 0 then []
+          else Smpl.ShortRead.readForward ((segmentHoley p path).clip e.size) (SAMPLE_HEADER_BYTES + 2 * h.start) size.toNat
+        ⟨e.name, e.ftype, .sample h data⟩
     else if isProgramType e.ftype then
       if programOk content then some ⟨e.name, e.ftype, .program⟩ else none
     else none
@@ -269,7 +286,7 @@ def volumes (p : Part) (programOk : Bytes → Bool) : List VolEntry → Except E
         match getPath p.links SAT_ENTRIES v.start with
         | .error e => ⟨v.name, v.vtype, [], some e⟩                 -- RequestedInvalidSector / InvalidFatDefinition: not caught
         | .ok path =>
-          let tbl := segment p path
+          let tbl := segmentPrefix p path
           match fileTable p tbl (tbl.length / FILE_ENTRY_BYTES) 0 with
           | .error e => ⟨v.name, v.vtype, [], some e⟩
           | .ok entries => ⟨v.name, v.vtype, entries.filterMap (realizeFile p · programOk), none⟩
